@@ -302,7 +302,7 @@ def fingerprint_now() -> dict:
 
 
 def changed_sources(pid: str) -> list[str]:
-    """Anchored files of the property whose content differs from fingerprints.json (committed; written by
+    """Library files whose content differs from fingerprints.json (committed; written by
     tools/mkfingerprints.py on the tree the checks were developed against).  A difference is not a verdict: it only makes
     the quick tier look harder (DESIGN.md 3.4)."""
     fp = VERIF / 'fingerprints.json'
@@ -310,15 +310,8 @@ def changed_sources(pid: str) -> list[str]:
         return []
     ref = json.loads(fp.read_text())
     now = fingerprint_now()
-    anchors = None
-    for line in (VERIF / 'properties.jsonl').read_text().splitlines():
-        if line.strip():
-            d = json.loads(line)
-            if d['id'] == pid:
-                anchors = set(d.get('anchors', {}).get('files', []))
-    # the compiler, the path base class and the helpers sit under every property
-    anchors = (anchors or set()) | {'src/femto/pgmcompiler.py', 'src/femto/laserpath.py', 'src/femto/helpers.py'}
-    return sorted(f for f in set(ref) | set(now) if f in anchors and ref.get(f) != now.get(f))
+    # any library file may sit under any property (builders, helpers, compiler): a difference anywhere counts
+    return sorted(f for f in set(ref) | set(now) if not f.startswith('_') and ref.get(f) != now.get(f))
 
 
 def load_known() -> dict:
